@@ -1,7 +1,12 @@
 """C01 - hook resolution order is a pure function of the registrations and the class hierarchy.
 
-Tie: K (hand-written model lean/PyrollModel/HookReg.lean + HookEval.lean + HookOps.lean, theorems
-lean/PyrollProps/C01.lean).  The harness builds real HookHost hierarchies with type(), drives them and the Lean model
+Tie: T + K (hand-written model lean/PyrollModel/HookReg.lean + HookEval.lean + HookOps.lean + HookUse.lean, theorems
+lean/PyrollProps/C01.lean).
+T: `translate` re-reads pyroll/core/hooks.py (driver/translate/hooks_skeleton.py -> lean/PyrollModel/Gen/C01Hooks.lean): the
+model CONSUMES the tier order of functions_gen, the `reversed` of _yield_functions_from, the store table of add_function, the
+store list of remove_function and the finally flag of HookFunction.__call__; the statements of the other mirrored functions
+are pinned by `hooks_source_as_modelled`.
+K: the harness builds real HookHost hierarchies with type(), drives them and the Lean model
 with the same operation lines and compares after EVERY operation the answer of the operation (Hook.functions as id
 list, value and invocation trace of a read, AttributeError) and the complete registry state (which classes carry an
 own Hook object, the six stores of each as id lists).
@@ -53,6 +58,7 @@ RULE = ("random histories (quick <= 25, thorough <= 60 ops) over hierarchies of 
         "history; non-trivial = at least two live registrations are visible in some observed chain; distinct by the "
         "canonical op list.")
 ASSUMPTIONS = [
+    "source tie (T): pyroll/core/hooks.py is read with ast into canonical role lines and typed facts (driver/translate/hooks_skeleton.py, trusted); the facts the model consumes are also executed against the imported pyroll.core.hooks on every run (self_check), the role lines are compared with the hand-written shape lean/PyrollModel/HookSource.lean by the theorem hooks_source_as_modelled",
     "CPython semantics are modelled, not verified: C3 __mro__ (the real tuples are inputs of the model), attribute "
     "lookup on classes through descriptors and the metaclass __setattr__, generator protocol (next/send/StopIteration.value), "
     "list.append/remove, try/finally",
@@ -65,6 +71,14 @@ ASSUMPTIONS = [
 ]
 
 TIERS = ("first", "normal", "last")
+
+
+def translate(ctx):
+    """(T) re-read pyroll/core/hooks.py of the working tree -> lean/PyrollModel/Gen/C01Hooks.lean (role lines of the mirrored
+    functions + the facts the model consumes: tier order, `reversed`, add / remove store tables, finally flag)"""
+    from ..translate import hooks_skeleton
+    info = hooks_skeleton.emit_for(ctx, ID)
+    ctx.notes["hooks_source"] = {k: v for k, v in info["facts"].items() if k in hooks_skeleton.SELECTION[ID]["fact_names"]}
 
 
 def _imports():
